@@ -258,7 +258,7 @@ pub(crate) struct NotificationProtocol {
     command_rx: Receiver<NotificationCommand>,
 
     /// TX channel given to connection handlers for sending notifications.
-    notif_tx: Sender<(PeerId, BytesMut)>,
+    notif_tx: Sender<(PeerId, usize, BytesMut)>,
 
     /// Connected peers.
     peers: HashMap<PeerId, PeerContext>,
@@ -1533,6 +1533,7 @@ impl NotificationProtocol {
                 let shutdown_tx = self.shutdown_tx.clone();
                 let (connection, shutdown) = Connection::new(
                     peer,
+                    sink.stream_id(),
                     inbound,
                     outbound,
                     self.event_handle.clone(),
